@@ -349,6 +349,105 @@ def ending_final_justified(s):
             or not master_shared(s))
 
 
+def consistence_posts_doc():
+    """_check_consistence of the states past SYNCHRONIZATION is where a state object decides ON ITS OWN to leave (local
+    instance not RUNNING -> OFF, failure strategy -> SYNCHRONIZATION / SHUTTING_DOWN, Master not shared -> ELECTION); the
+    value is returned unchanged by next().  The C02 clause 3 and C08 clause 1 obligations on these values are therefore
+    stated (and, on the pinned tree, refuted) here, on a small function, and next() uses this contract."""
+    return True
+
+
+@contract('statemachine:_SynchronizedState._check_consistence', props=['C02', 'C08'])
+class SynchronizedCheckConsistence:
+    """see consistence_posts_doc"""
+    raises = ()
+    returns = 'Optional[SupvisorsStates]'
+    variants = ['ElectionState']
+
+    def pre_valid(self):
+        return valid_state(self)
+
+    def modifies(self):
+        return [contents(self.sync_alerts), field(LOCAL(self), 'degraded_mode')]
+
+    def post_domain(self, result):
+        return (result is None or result == SupvisorsStates.OFF or result == SupvisorsStates.SYNCHRONIZATION
+                or result == SupvisorsStates.SHUTTING_DOWN)
+
+    def post_c02_shutting_down(self, result):
+        return md_ok_for(self, result, SupvisorsStates.SHUTTING_DOWN)
+
+    def post_c08_self_decision_in_table(self, result):
+        return in_table(self, result)
+
+    def post_none_means_consistent(self, result):
+        return implies(result is None, sees_running(self, LID(self)))
+
+    def post_alerts(self):
+        return all(o in self.sync_alerts for o in SYNC_OPTIONS)
+
+
+@contract('statemachine:_MasterSlaveState._check_consistence', props=['C02', 'C08'])
+class MasterSlaveCheckConsistence:
+    """see consistence_posts_doc"""
+    raises = ()
+    returns = 'Optional[SupvisorsStates]'
+    variants = ['DistributionState', 'OperationState', 'ConciliationState']
+    inline = ['statemachine:_SynchronizedState._check_consistence']
+
+    def pre_valid(self):
+        return valid_state(self)
+
+    def modifies(self):
+        return [contents(self.sync_alerts), field(LOCAL(self), 'degraded_mode')]
+
+    def post_domain(self, result):
+        return (result is None or result == SupvisorsStates.OFF or result == SupvisorsStates.SYNCHRONIZATION
+                or result == SupvisorsStates.SHUTTING_DOWN or result == SupvisorsStates.ELECTION)
+
+    def post_c02_shutting_down(self, result):
+        return md_ok_for(self, result, SupvisorsStates.SHUTTING_DOWN)
+
+    def post_c08_self_decision_in_table(self, result):
+        return in_table(self, result)
+
+    def post_none_means_consistent(self, result):
+        return implies(result is None, sees_running(self, LID(self)) and master_checked(self))
+
+    def post_alerts(self):
+        return all(o in self.sync_alerts for o in SYNC_OPTIONS)
+
+
+@contract('statemachine:_EndingState._check_consistence', props=['C09'])
+class EndingCheckConsistence:
+    """anchor 'ending states force FINAL' (docstring of the method: 'Force the ending process if the local or Master
+    Supvisors instance is lost') - and, C09 clause 3, ONLY then: 'each live instance's Supervisor receives exactly one
+    restart/shutdown order, only after the Master has finished stopping everything (or given up on timeouts)'"""
+    raises = ()
+    returns = 'Optional[SupvisorsStates]'
+    variants = ['RestartingState', 'ShuttingDownState']
+    # the refuted clauses of the super() chain must not be assumed here: the real code is executed
+    inline = ['statemachine:_MasterSlaveState._check_consistence', 'statemachine:_SynchronizedState._check_consistence']
+
+    def pre_valid(self):
+        return valid_state(self)
+
+    def modifies(self):
+        return [contents(self.sync_alerts), field(LOCAL(self), 'degraded_mode')]
+
+    def post_domain(self, result):
+        return result is None or result == SupvisorsStates.FINAL
+
+    def post_final_only_when_local_or_master_lost(self, result):
+        return implies(result == SupvisorsStates.FINAL, not sees_running(self, LID(self)) or not master_shared(self))
+
+    def post_none_means_consistent(self, result):
+        return implies(result is None, sees_running(self, LID(self)) and master_checked(self))
+
+    def post_alerts(self):
+        return all(o in self.sync_alerts for o in SYNC_OPTIONS)
+
+
 @contract('statemachine:_MasterSlaveState._slave_next', props=['C02', 'C08'])
 class SlaveNext:
     """mechanism 'slaves follow Master state': the last state published by the Master, None when it is not known.  The
